@@ -266,7 +266,7 @@ impl<K> SeqSet<K> {
     uninterp spec fn view(&self) -> Set<K>;
     #[verifier::external_body]
     fn insert(&mut self, k: K) -> (r: bool)
-        ensures final(self)@ == old(self)@.insert(k), r == !old(self)@.contains(k),
+        ensures final(self)@ == old(self)@.insert(k), r == !old(self)@.contains(k), !r ==> final(self)@ == old(self)@,
     { unimplemented!() }
     #[verifier::external_body]
     fn contains(&self, k: &K) -> (r: bool) ensures r == self@.contains(*k) { unimplemented!() }
@@ -283,3 +283,11 @@ uninterp spec fn repr_apply<S>(f: ReprFn<S>, s: S) -> S;
 fn call_repr<S>(f: &ReprFn<S>, s: &S) -> (r: S)
     ensures r == repr_apply(*f, *s)
 { (f.f)(s) }
+
+// `VecDeque::from(vec)` (std: "Turn a Vec<T> into a VecDeque<T>"): same elements in the same order.  vstd only
+// says the result is `from_spec(vec)`; this axiom gives that spec function its meaning.
+#[verifier::external_body]
+proof fn axiom_vecdeque_from_vec<T>()
+    ensures <VecDeque<T> as vstd::std_specs::convert::FromSpec<Vec<T>>>::obeys_from_spec(),
+            forall|v: Vec<T>| (#[trigger] <VecDeque<T> as vstd::std_specs::convert::FromSpec<Vec<T>>>::from_spec(v))@ == v@
+{}
